@@ -2,9 +2,9 @@ import CifModel.Props.C02Doc
 /-
   Property C02 — the hypotheses of the whole-document round trip (`C02_roundtrip_doc` / `C02_roundtrip_doc_nl`: `cifR`, `blocksN`), one
   conjunct at a time: each is NECESSARY — the writer model writes the CIF and the parser model, reading the output back, reports
-  an error — and each is an invariant of every CIF built through the API (it cannot be violated on the real code), except the two
-  about characters, which the API does not enforce for VALUES: they are findings (F-disallowed-char-written, F-cr-altered; replays
-  in corpus/writeval/findings.req).  `containersL` is gone (`C02_roundtrip_doc_nl`).  All by kernel evaluation of both models.
+  an error — and each is an invariant of every CIF built through the API (it cannot be violated on the real code).  The two about
+  characters, which the API does not enforce for VALUES, were findings (F-disallowed-char-written, F-cr-altered; replays in
+  corpus/writeval/regressions.req); since their repair `cif_write` refuses such values (Props/C02Clean.lean).  `containersL` is gone (`C02_roundtrip_doc_nl`).  All by kernel evaluation of both models.
 -/
 namespace CifModel
 open Model Model.Writer
@@ -27,8 +27,9 @@ end C02Hyp
 open C02Hyp in
 set_option maxRecDepth 1000000 in
 /-- **C02_cex_hypotheses** — what the re-parse reports when one conjunct of `cifR` / `blocksN` fails (everything else in order):
-      1. `cifR`, characters: a string with U+0001 is written as it is → CIF_DISALLOWED_CHAR (104).  REAL CODE: the API stores such
-         a string, `cif_write` (CIF 2.0 mode) succeeds, `cif_parse` reports 104 — finding F-disallowed-char-written;
+      1. (`cifR`, characters: since the repairs of F-disallowed-char-written / F-cr-altered a string with a character CIF 2.0 does
+         not allow, or with a CR, is not written at all — `C02_disallowed_char_refused`, `C02_cr_refused`,
+         `C02_success_implies_clean` — so this conjunct is no longer a hypothesis the writer can violate;)
       2. `blocksN`, block codes pairwise different after normalisation: `b`, `B` → CIF_DUP_BLOCKCODE (11) (API: refused at creation);
       3. `blocksN`, item names pairwise different: `_x`, `_X` → CIF_DUP_ITEMNAME (41) (API: refused);
       4. `cifR`, a code is one word: `a b` → CIF_MISSING_SPACE… (134: unexpected value) (API: `cif_is_valid_name`);
@@ -38,8 +39,7 @@ set_option maxRecDepth 1000000 in
       7. `blocksN`, a loop has a header: none → CIF_NULL_LOOP (37) (API: a loop has at least one name);
       8. `cifR` (`numR`), an unquoted number text is one whitespace-delimited value: `1 2` → 134 (API: number syntax, C10). -/
 theorem C02_cex_hypotheses :
-    reparse (C02Doc.oneItem (.chr true [97, 1])) = [104]
-    ∧ reparse [WContainer.mk (a!"b") [] [sc (a!"_x") (a!"1")], WContainer.mk (a!"B") [] [sc (a!"_x") (a!"1")]] = [11, 41]
+    reparse [WContainer.mk (a!"b") [] [sc (a!"_x") (a!"1")], WContainer.mk (a!"B") [] [sc (a!"_x") (a!"1")]] = [11, 41]
     ∧ reparse (block [dupNames]) = [41]
     ∧ reparse [WContainer.mk (a!"a b") [] [sc (a!"_x") (a!"1")]] = [134]
     ∧ reparse (block [twoPackets]) = [41]
